@@ -830,6 +830,7 @@ package raft
 //@   ensures  empty_log_tail: result1 == nil && logs.last == 0 ==> result0.lastLogIndex == 0
 //@   ensures  starts_as_follower: result1 == nil ==> result0.state == Follower && result0.logs == logs && result0.stable == stable
 //@   loop 1 entry config_scan_covers_log: snapshotIndex < MaxUint64 ==> index == snapshotIndex + 1
+//@   at call Transport.SetHeartbeatHandler#1 assert start_up_queue_fits: sent(r.fsmMutateCh) <= cap(r.fsmMutateCh) && cap(r.fsmMutateCh) == 128
 
 // ---------------------------------------------------------------------------
 // C11: takeSnapshot ordering
@@ -1189,6 +1190,7 @@ package raft
 //@   localonly
 //@   at call updateLastAppended#1 assert match_only_from_successful_response: resp.Success && resp.Term <= req.Term
 //@   at call (*Raft).handleStaleTerm#1 assert newer_term_stops_replication: resp.Term > req.Term
+//@   at call (*followerReplication).setLastContact#1 assert contact_only_from_a_current_term_response: resp.Term <= req.Term
 
 //@ func (r *Raft) sendLatestSnapshot
 //@   requires nonnil: r != nil && s != nil && r.trans != nil && r.logger != nil && r.snapshots != nil && s.commitment != nil
@@ -1196,12 +1198,14 @@ package raft
 //@   at call (*commitment).match#1 assert match_only_from_successful_install: resp.Success && resp.Term <= req.Term && arg2 == meta.Index && arg1 == peer.ID
 //@   at call Transport.InstallSnapshot#1 assert request_describes_the_snapshot_sent: arg2.LastLogIndex == meta.Index && arg2.LastLogTerm == meta.Term && arg2.Term == s.currentTerm && arg2.ConfigurationIndex == meta.ConfigurationIndex && arg0 == peer.ID
 //@   at call (*Raft).handleStaleTerm#1 assert newer_term_stops_replication: resp.Term > req.Term
+//@   at call (*followerReplication).setLastContact#1 assert contact_only_from_a_current_term_response: resp.Term <= req.Term
 
 //@ func (r *Raft) pipelineDecode
 //@   requires nonnil: r != nil && s != nil && s.commitment != nil
 //@   localonly
 //@   at call updateLastAppended#1 assert match_only_from_successful_response: resp.Success && resp.Term <= req.Term && arg1 == req
 //@   at call (*Raft).handleStaleTerm#1 assert newer_term_stops_replication: resp.Term > req.Term
+//@   at call (*followerReplication).setLastContact#1 assert contact_only_from_a_current_term_response: resp.Term <= req.Term
 
 // ---------------------------------------------------------------------------
 // FSM goroutine: what a snapshot is stamped with (C11), and how the stamp is maintained (C02/C11):
@@ -1311,3 +1315,27 @@ package raft
 //@   loop 1 step nothing_passed_on_without_a_request: received(n.inprogressCh) == old(received(n.inprogressCh)) ==> sent(n.doneCh) == old(sent(n.doneCh))
 //@   at call decodeResponse#1 assert decodes_into_its_own_future: cast(arg1, *AppendEntriesResponse) == future.resp && arg0 == n.conn
 //@   at call (*deferError).respond#1 assert answers_with_the_decode_result: arg1 == err
+
+// ---------------------------------------------------------------------------
+// C13: configuration validation keeps the lease inside the heartbeat and election timeouts;
+// a follower's last contact is refreshed only from a response that did not carry a newer term.
+
+//@ func ValidateConfig
+//@   requires nonnil: config != nil
+//@   modifies nothing
+//@   ensures  lease_within_heartbeat_within_election: result == nil ==> 5000000 <= config.LeaderLeaseTimeout && config.LeaderLeaseTimeout <= config.HeartbeatTimeout && config.HeartbeatTimeout <= config.ElectionTimeout
+//@   ensures  batch_size_bounded: result == nil ==> 1 <= config.MaxAppendEntries && config.MaxAppendEntries <= 1024
+//@   ensures  identified: result == nil ==> config.LocalID != "" && config.ProtocolVersion <= ProtocolVersionMax
+
+// ---------------------------------------------------------------------------
+// C20 (API side): Restore queues the restore request, waits for it, then queues a no-op and waits for that
+
+//@ func (r *Raft) Restore
+//@   requires nonnil: r != nil && r.userRestoreCh != nil && r.applyCh != nil && r.shutdownCh != nil && meta != nil
+//@   localonly
+//@   ensures  noop_follows_a_successful_restore: result == nil ==> sent(r.userRestoreCh) == old(sent(r.userRestoreCh)) + 1 && sent(r.applyCh) == old(sent(r.applyCh)) + 1
+//@   ensures  nothing_queued_when_refused: sent(r.userRestoreCh) == old(sent(r.userRestoreCh)) ==> sent(r.applyCh) == old(sent(r.applyCh)) && result != nil
+//@   ensures  at_most_one_of_each: sent(r.userRestoreCh) <= old(sent(r.userRestoreCh)) + 1 && sent(r.applyCh) <= old(sent(r.applyCh)) + 1
+//@   at call (*deferError).Error#1 assert restore_request_carries_the_snapshot: restore.meta == meta && restore.reader == reader && restore.errCh != nil && lastsent(r.userRestoreCh) == restore && sent(r.userRestoreCh) == old(sent(r.userRestoreCh)) + 1 && sent(r.applyCh) == old(sent(r.applyCh))
+//@   at call (*deferError).Error#2 assert noop_queued_after_the_restore_was_answered: noop.log.Type == LogNoop && noop.errCh != nil && lastsent(r.applyCh) == noop && sent(r.applyCh) == old(sent(r.applyCh)) + 1
+//@   at call (*deferError).Error#2 assert queued_future_has_shutdown_escape: noop.ShutdownCh == r.shutdownCh
